@@ -48,7 +48,7 @@ META = {
         "configurations": "one harness per (layout, local node position, consistency level); quick: layouts [3] [2,2] [1,3] [1,1,1] [4]; "
                           "thorough adds [1] [2] [1,1] [1,2] [2,3] [3,3] [2,1,1] [1,2,2] [2,2,2] [3,2,1] [3,3,3] [1,1,1,1] [2,1,1,1] [5]; all 8 levels each",
         "rng": "every draw of the random data-centre choice is symbolic (choose_multiple returns an arbitrary subset of the requested size in arbitrary order); configurations that reach that branch are thorough-tier only",
-        "unwind": "NodeVec capacity + 2 (quick: capacity 4, unwind 6; thorough: capacity 8, unwind 10): covers nodes per DC + 1, 4-byte memcmp + 1, map capacity 4 + 1; checked by unwinding assertions",
+        "unwind": "NodeVec capacity + 2; each layout runs in the crate with the smallest capacity that fits it (4, 5 or 8 -> unwind 6, 7, 10): covers nodes per DC + 1, 4-byte memcmp + 1, map capacity 4 + 1; checked by unwinding assertions",
     },
     "models": [
         "std::collections::BTreeMap -> vsel::BTreeMap (sorted association list over a fixed array of 4 slots; import rewrite, 1 line; "
@@ -124,9 +124,14 @@ def _layouts(tier):
     return THOROUGH_LAYOUTS if tier == "thorough" else QUICK_LAYOUTS
 
 
-def _nodevec_cap(tier):
-    """capacity of the NodeVec model: the largest data centre and the largest possible selection (all other nodes)"""
-    return max(max(max(lay), sum(lay) - 1) for lay, _ in _layouts(tier))
+def _cap_for(layout):
+    """capacity of the NodeVec model a layout needs: its largest data centre and its largest possible selection (all other
+    nodes); at least 4 so that the small layouts share one crate"""
+    return max(4, max(layout), sum(layout) - 1)
+
+
+def _caps(tier):
+    return sorted(set(_cap_for(lay) for lay, _ in _layouts(tier)))
 
 
 def _uses_rng(layout, local_dc, lname):
@@ -144,6 +149,7 @@ def _configs(tier):
     for layout, positions in _layouts(tier):
         for (dc, node) in positions:
             base = "c15_l%s_p%d%d_" % ("".join(str(x) for x in layout), dc, node)
+            crate = "selv%d" % _cap_for(layout)
             for lname, lexpr in LEVELS:
                 if lname == "quorum" and tier != "thorough" and len(layout) > 1:
                     # Quorum's round-robin over several per-data-centre iterators takes 10+ minutes: thorough tier only
@@ -152,14 +158,16 @@ def _configs(tier):
                     # the random data-centre choice makes the selected cyclers symbolic references: 8.8 M variables, 12 minutes
                     continue
                 if lname in OWN_HARNESS:
-                    out.append((base + lname, layout, dc, node, lname, lexpr))
-            out.append((base + "others", layout, dc, node, "none|localquorum|all|eachquorum (symbolic choice)", None))
+                    out.append((base + lname, layout, dc, node, lname, lexpr, crate))
+            out.append((base + "others", layout, dc, node, "none|localquorum|all|eachquorum (symbolic choice)", None, crate))
     return out
 
 
-def _harness_text(tier):
+def _harness_text(tier, crate):
     lines = []
-    for (n, lay, dc, node, _, lexpr) in _configs(tier):
+    for (n, lay, dc, node, _, lexpr, c) in _configs(tier):
+        if c != crate:
+            continue
         arr = "[%s]" % ", ".join(str(x) for x in lay)
         if lexpr is None:
             lines.append("    selector_others_harness!(%s, %s, %d, %d);" % (n, arr, dc, node))
@@ -169,25 +177,34 @@ def _harness_text(tier):
 
 
 def build(ws, tier, seed, mode):
-    for shim in ("rand", "tracing", "tracing-attributes"):
-        shutil.copytree(os.path.join(dcv.ENCODE, "shims", shim), ws.path(shim), dirs_exist_ok=True)
-    d = ws.path("selv")
-    os.makedirs(os.path.join(d, "src"), exist_ok=True)
-    dcv.write(os.path.join(d, "Cargo.toml"), SELV_CARGO)
-    common.lockfile(d)
-    cap = _nodevec_cap(tier)
-    unwind = max(cap, 4) + 2   # NodeVec loops, map capacity 4, 4-byte memcmp of DC names and IPv4 octets, + 1 for the exit test
-    dcv.write(os.path.join(d, "src/lib.rs"), SELV_LIB % ("mod vsel_cfg;\nmod vsel;" if mode == "solve" else ""))
-    if mode == "solve":
-        shutil.copy(os.path.join(dcv.ENCODE, "vsel.rs"), os.path.join(d, "src/vsel.rs"))
-        dcv.write(os.path.join(d, "src/vsel_cfg.rs"), "// generated per run: capacity of the NodeVec model\npub const NODEVEC_CAP: usize = %d;\n" % cap)
-    # one harness per configuration of this tier (a replay file records its tier)
-    hs = _harness_text(tier)
-    mounted = [dcv.mount("datacake-node/src/nodes_selector.rs", os.path.join(d, "src/nodes_selector.rs"),
-                         rewrites=(SELECTOR_REWRITES if mode == "solve" else ()),
-                         append=[os.path.join(dcv.ENCODE, "harness_c15.rs")],
-                         subst={"@@HARNESSES@@": hs, "@@UNWIND@@": unwind, "@@NODEVEC_CAP@@": cap})]
-    return {"crates": {"selv": {"dir": d, "features": ()}}, "mounted": mounted, "cfg": {"NODEVEC_CAP": cap, "unwind": unwind}}
+    """one crate per NodeVec capacity needed by the tier's layouts (quick: 4; thorough: 4, 5, 8) - a larger capacity means a
+    larger unwind bound for every loop, so each layout runs in the smallest crate that fits it"""
+    crates = {}
+    mounted = []
+    cfg = {}
+    for cap in _caps(tier):
+        root = ws.path("cap%d" % cap)
+        os.makedirs(root, exist_ok=True)
+        for shim in ("rand", "tracing", "tracing-attributes"):
+            shutil.copytree(os.path.join(dcv.ENCODE, "shims", shim), os.path.join(root, shim), dirs_exist_ok=True)
+        d = os.path.join(root, "selv")
+        os.makedirs(os.path.join(d, "src"), exist_ok=True)
+        dcv.write(os.path.join(d, "Cargo.toml"), SELV_CARGO)
+        common.lockfile(d)
+        unwind = cap + 2   # NodeVec loops, map capacity 4, 4-byte memcmp of DC names and IPv4 octets, + 1 for the exit test
+        dcv.write(os.path.join(d, "src/lib.rs"), SELV_LIB % ("mod vsel_cfg;\nmod vsel;" if mode == "solve" else ""))
+        if mode == "solve":
+            shutil.copy(os.path.join(dcv.ENCODE, "vsel.rs"), os.path.join(d, "src/vsel.rs"))
+            dcv.write(os.path.join(d, "src/vsel_cfg.rs"), "// generated per run: capacity of the NodeVec model\npub const NODEVEC_CAP: usize = %d;\n" % cap)
+        m = dcv.mount("datacake-node/src/nodes_selector.rs", os.path.join(d, "src/nodes_selector.rs"),
+                      rewrites=(SELECTOR_REWRITES if mode == "solve" else ()),
+                      append=[os.path.join(dcv.ENCODE, "harness_c15.rs")],
+                      subst={"@@HARNESSES@@": _harness_text(tier, "selv%d" % cap), "@@UNWIND@@": unwind, "@@NODEVEC_CAP@@": cap})
+        if not mounted:
+            mounted.append(m)
+        crates["selv%d" % cap] = {"dir": d, "features": ()}
+        cfg["selv%d" % cap] = {"NODEVEC_CAP": cap, "unwind": unwind}
+    return {"crates": crates, "mounted": mounted, "cfg": cfg}
 
 
 def validate(ws, build, logs_dir):
@@ -214,12 +231,19 @@ def validate(ws, build, logs_dir):
 
 def harnesses(tier, seed):
     hs = []
-    for (name, layout, dc, node, lname, _) in _configs(tier):
+    for (name, layout, dc, node, lname, _, crate) in _configs(tier):
         heavy = lname == "quorum"
         # three or more data centres: the random data-centre choice makes the selected cyclers symbolic references (8.8 M variables)
         rng_path = _uses_rng(layout, dc, lname)
+        t_s = (3000 if tier == "thorough" else 800) if (heavy or rng_path) else 800
+        mem = 20 if rng_path else (12 if heavy else 8)
+        cap = _cap_for(layout)
+        if cap >= 8:
+            t_s, mem = 3000, max(mem, 24)
+        elif cap >= 5:
+            t_s, mem = max(t_s, 1500), max(mem, 12)
         hs.append({
-            "name": name, "crate": "selv", "timeout_s": (3000 if tier == "thorough" else 800) if (heavy or rng_path) else 800, "mem_gb": 20 if rng_path else (12 if heavy else 8),
+            "name": name, "crate": crate, "timeout_s": t_s, "mem_gb": mem,
             "min_covers": 1,
             "what": "layout %s, local node = node %d of dc-%d, level %s: members only, never the local node, no duplicates, enough "
                     "(exactly n for One/Two/Three); NotEnoughNodes only when too few other nodes exist" % (layout, node, dc, lname),
